@@ -58,7 +58,13 @@ class Check(core.CheckBase):
         if case['kind'] == 'seed':
             rng = random.Random('C05/%s/%s/%s' % (self.seed, name, case['seed_index']))
             data = self.corpus[name][case['seed_index']]
+            rejected_before = self.stats['rejected']
             found.extend(self.judge_input(name, data, 'seed'))
+            if self.stats['rejected'] != rejected_before:
+                # recorded as accepted on the pinned tree: an accepted input the parser no longer accepts has lost its meaning
+                found.append(self.violation('recorded-input-rejected|%s' % name.split(':')[1],
+                                            '%s no longer accepts %s.. of the seed corpus' % (name.split(':')[1], data[:32].hex()),
+                                            {'kind': 'seed', 'cls': name, 'seed_index': case['seed_index'], 'of': case['of']}))
             budget = max(16, BUDGET[self.tier] // case['of'])
             others = self.corpus[name] + [rng.choice(self.all_seeds) for _ in range(3)]
             for recipe, mutant in mutate.mutants(data, others, rng, budget):
